@@ -122,7 +122,11 @@ Qed.
 Lemma on_retract_response_RS s w ids s' : on_retract_response s w ids = Ok s' -> RS (core_of s) (core_of s').
 Proof.
   unfold on_retract_response. intros H. destruct (retract_response_states _ w ids []) as [c' groups] eqn:E.
-  rewrite (send_redirected_core _ _ _ H). eapply retract_response_states_RS; exact E.
+  apply bind_ok in H. destruct H as (s2 & H & H2).
+  assert (X2 : RS (core_of s) (core_of s2)).
+  { rewrite (send_redirected_core _ _ _ H). eapply retract_response_states_RS; exact E. }
+  destruct (retract_wakes _ _ _ _); inversion H2; subst s'; clear H2; [|exact X2].
+  eapply RS_trans; [exact X2|]. apply RS_tasks; [reflexivity | ds].
 Qed.
 
 (** * Server: new worker, new tasks *)
